@@ -8,6 +8,9 @@
 pub mod common;
 pub mod corpus;
 pub mod hashsim;
+pub mod lsp_corpus;
+pub mod lspsim;
+pub mod passwatch;
 
 use common::{Cli, EXIT_HARNESS};
 
@@ -24,6 +27,7 @@ pub fn main(args: &[String]) -> i32 {
     mos_simrt::panics::install_hook();
     match cli.target.as_str() {
         "C10" | "hashsim" => hashsim::main(&cli),
+        "C14" | "lspsim" => lspsim::main(&cli),
         other => {
             eprintln!("simctl: unknown target {}", other);
             EXIT_HARNESS
